@@ -91,7 +91,7 @@ Sem(e, V, B) ==
     [] ~has /\ e.op \in {"push", "pop", "insert", "remove", "swap_remove", "truncate", "clear", "resize",
                          "extend_from_slice", "extend", "append", "split_off", "drain", "splice", "retain",
                          "drain_filter", "dedup", "dedup_by_key", "dedup_by", "reserve", "reserve_exact", "try_reserve",
-                         "try_reserve_exact", "shrink_to_fit", "clone", "into_iter", "into_bump_slice",
+                         "try_reserve_exact", "shrink_to_fit", "clone", "into_iter", "into_iter_via", "into_bump_slice",
                          "into_boxed_slice", "index", "drop_vec"} ->
          \* the driver does nothing when the slot is empty (except that it drops what it built for the call)
          Res(V, B)
@@ -182,6 +182,19 @@ Sem(e, V, B) ==
              back == Rev(TakeBack(rest, e.b))
              mid == Sub(rest, 1, Len(rest) - Len(back))
          IN [Res(SetV(NoVec), B) EXCEPT !.ret = front \o back, !.drops = IdsOf(mid)]
+    [] e.op = "into_iter_via" ->
+         \* the owning iterator consumed through an adaptor (e.a: which, e.b: its argument n); whatever the adaptor
+         \* does not hand out is destroyed, at the latest when the iterator is dropped
+         LET n == e.b
+             At(k) == IF k >= 1 /\ k <= len THEN <<s[k]>> ELSE <<>>
+             got == CASE e.a = 0 -> At(n + 1)
+                      [] e.a = 1 -> At(n + 1)
+                      [] e.a = 2 -> [k \in 1..((len + n) \div (n + 1)) |-> s[(k - 1) * (n + 1) + 1]]
+                      [] e.a = 3 -> At(len)
+                      [] e.a = 4 -> <<>>
+                      [] e.a = 5 -> At(len - n)
+                      [] OTHER -> At(n + 1) \o At(2 * n + 2) \o At(2 * n + 3)
+         IN [Res(SetV(NoVec), B) EXCEPT !.ret = got, !.drops = IdsOf(s) \ {got[k][1] : k \in 1..Len(got)}]
     [] e.op = "into_bump_slice" -> [Res(SetV(NoVec), B) EXCEPT !.ret = s, !.leaks = IdsOf(s)]
     [] e.op = "into_boxed_slice" ->
          \* the driver stores the boxed slice in box slot e.a
